@@ -25,8 +25,8 @@ except ImportError:
 
 def _get_color_from_string(a_string: str, colors: bool):
     if colors:
-        hash_str = f"{crc32(a_string.encode('utf-8'))}"
-        return f"#{hash_str[2:8]}"
+        # a valid 6 hex digits color, whatever the string (even an empty one)
+        return f"#{crc32(a_string.encode('utf-8')) & 0xFFFFFF:06X}"
     return "#F0F0F0"
 
 
